@@ -154,7 +154,7 @@ func (v *valBool) encode(buf decoder.EncoderType) {
 
 func (v *valBool) decode(dec decoder.Decoder) error {
 	v.name = dec.Data()
-	_ = dec.Byte() // len is 1, read away
+	_ = dec.Int16() // len is 1, read away
 
 	if b := dec.Byte(); b == 1 {
 		v.val = append(v.val, true)
@@ -164,9 +164,10 @@ func (v *valBool) decode(dec decoder.Decoder) error {
 
 	// Check for additional values
 	vtag := dec.Byte()
-	for vtag != v.tag {
+	for vtag == v.tag {
 		//check name length
 		if l := dec.Int16(); l == 0 {
+			_ = dec.Int16() // len is 1, read away
 			if b := dec.Byte(); b == 1 {
 				v.val = append(v.val, true)
 			} else {
